@@ -186,6 +186,14 @@ def replay(body):
     a = body['args']
     if body.get('call') == 'UserTemplate.get_mask':
         fail = user_failure(*a['source'], *a['target'])
+    elif 'attr_change' in a:
+        q = a['attr_change']
+        p_ = make(q['kind'], q['r1'], q['ro1'] + 1.0, q['ro1'])
+        p_.get_mask(tuple(q['shape']))
+        for attr, val in q['changes']:
+            setattr(p_, attr, val)
+        fresh = make(q['kind'], p_.radius, q['ro1'] + 1.0, getattr(p_, 'radius_outer', None))
+        fail = None if np.allclose(np.asarray(p_.get_mask(tuple(q['shape'])), dtype=float), np.asarray(fresh.get_mask(tuple(q['shape'])), dtype=float), atol=1e-12) else 'mask after the attribute change differs from a fresh object'
     elif body.get('kind') == 'history':
         fail = requery_failure(a['pattern'], [tuple(x) for x in a['shapes']], [tuple(x) for x in a.get('order', a['shapes'])])
     elif 'delta' in a:
@@ -376,6 +384,30 @@ def run(ctx):
             fail = 'RadialGradientBackgroundSubtraction(radius=%s, radius_outer=%s, delta=%s) on shape %s: %s' % (radius, ro, delta, shape, fail)
             ctx.violation('input', fail, {'kind': 'input', 'call': 'get_mask', 'args': {'kind': 'RadialGradientBackgroundSubtraction', 'radius': radius, 'radius_outer': ro,
                                                                                          'delta': delta, 'search': ro + 1, 'shape': list(shape)}, 'failure': fail})
+            break
+    # public attributes of one pattern object changed between queries (the classes re-read them): what comes back is what a fresh object with
+    # the new values gives -- in particular after SHRINKING a radius
+    for k in range(ctx.n(12, 80)):
+        kind = ['RadialGradientBackgroundSubtraction', 'BackgroundSubtraction', 'Circular', 'RadialGradient'][k % 4]
+        r1 = float(rng.choice([3.0, 4.0, 5.0]))
+        ro1 = r1 + float(rng.choice([3.0, 4.0]))
+        shape = (int(rng.integers(2 * int(ro1) + 8, 50)), int(rng.integers(2 * int(ro1) + 8, 50)))
+        p_ = make(kind, r1, ro1 + 1.0, ro1)
+        p_.get_mask(shape)
+        changes = [('radius_outer', ro1 - float(rng.choice([1.0, 2.0])))] if 'Background' in kind else [('radius', r1 - 1.0)]
+        if rng.integers(0, 2):
+            changes.append(('radius', r1 - float(rng.choice([0.5, 1.0]))))
+        for attr, val in changes:
+            setattr(p_, attr, val)
+        now = {'radius': getattr(p_, 'radius'), 'radius_outer': getattr(p_, 'radius_outer', None)}
+        fresh = make(kind, now['radius'], ro1 + 1.0, now['radius_outer'])
+        m1, m2 = np.asarray(p_.get_mask(shape), dtype=float), np.asarray(fresh.get_mask(shape), dtype=float)
+        ctx.count(1, key=('attr', kind, r1, ro1, tuple(changes), shape))
+        if not np.allclose(m1, m2, atol=1e-12):
+            i = np.unravel_index(np.argmax(np.abs(m1 - m2)), m1.shape)
+            fail = '%s built with radius %s / radius_outer %s, then %s: mask for shape %s differs from a fresh object with these values (%.4g instead of %.4g at pixel %s)' % (
+                kind, r1, ro1, ', '.join('%s = %s' % cv for cv in changes), shape, m1[i], m2[i], tuple(int(v) for v in i))
+            ctx.violation('input', fail, {'kind': 'history', 'call': 'attribute change', 'args': {'attr_change': {'kind': kind, 'r1': r1, 'ro1': ro1, 'changes': [[a_, float(v_)] for a_, v_ in changes], 'shape': list(shape)}}, 'failure': fail})
             break
     # re-query order
     for k in range(ctx.n(10, 60)):
